@@ -128,9 +128,24 @@ fn base_builder<'a>(c: &Case, acc_t: i64) -> Performance<'a> {
         "S" => p.lazer(false),
         "L" => p.lazer(true),
         _ => {
+            // lazer + Classic, expressed in one of three equivalent ways (chosen by the case): the intermode acronym, the lazer
+            // mod struct as the API delivers `{"acronym":"CL"}` (every setting unset), the struct with the default spelled out
             let mut im = rosu_mods::GameModsIntermode::new();
             im.insert(rosu_mods::GameModIntermode::Classic);
-            p.lazer(true).mods(im)
+            let v = &c.p;
+            match (v.n300 + 3 * v.n100 + 5 * v.miss + 7 * v.combo + c.acc + c.passed + i64::from(c.sh.a)).rem_euclid(3) {
+                0 => p.lazer(true).mods(im),
+                k => {
+                    use rosu_mods::generated_mods as gm;
+                    let mut lazer = rosu_mods::GameMods::new();
+                    lazer.insert(rosu_mods::GameMod::ClassicOsu(if k == 1 {
+                        gm::ClassicOsu::default()
+                    } else {
+                        gm::ClassicOsu { no_slider_head_accuracy: Some(true), ..Default::default() }
+                    }));
+                    p.lazer(true).mods(lazer)
+                }
+            }
         }
     };
     if c.passed >= 0 {
